@@ -724,7 +724,24 @@ class Interp:
         m = getattr(self, "s_" + type(s).__name__, None)
         if m is None:
             raise Unsupported(f"statement {type(s).__name__} at line {s.lineno}")
-        return m(s, frame)
+        r = m(s, frame)
+        ghost = getattr(frame.unit, "asserts", None)
+        if ghost and frame.depth == 0 and isinstance(s, (ast.Assign, ast.AugAssign, ast.Expr)):
+            # ghost assertions of the contract, attached to a statement by its text:
+            # proved here (obligation), then available as facts (cut)
+            fn = ghost.get(" ".join(ast.unparse(s).split()))
+            if fn is not None:
+                for name, f in fn(self.ctx, View(frame)):
+                    self.ctx.check(f, f"ghost assertion after `{ast.unparse(s)[:40]}`: {name}",
+                                   s.lineno, kind="assert")
+                # cuts requested by the contract: after the assertion is proved the
+                # variable is replaced by a fresh value about which only the stated fact is known
+                pend = getattr(frame.unit, "_pending", None)
+                while pend:
+                    v, var, fresh, facts = pend.pop(0)
+                    frame.locals[var] = fresh
+                    self.ctx.assume(facts)
+        return r
 
     def s_Pass(self, s, f):
         pass
@@ -1733,6 +1750,7 @@ class Unit:
     bytes_ghost = None
     extra_globals = None
     native = ()
+    asserts = None
 
     def __init__(self, **kw):
         for k, v in kw.items():
